@@ -688,11 +688,16 @@ def r10_16_double_carry_is_symmetric(ctx: Ctx) -> RuleResult:
     for f in sorted(set(M.func_of_node.values()), key=lambda x: x.qual):
         if isinstance(f.node, ast.Lambda) or f.name != "with_offset" or f.cls is None:
             continue
+        from ..kit import inline_locals
+
+        def npd(t, f=f) -> bool:  # the day length, also when it is held in a local
+            return "NANOSECONDS_PER_DAY" in unparse(inline_locals(f.node, t))
+
         for n in own_nodes(f.node):
-            if not (isinstance(n, ast.If) and "NANOSECONDS_PER_DAY" in unparse(n.test) and n.orelse and isinstance(n.orelse[0], ast.If)):
+            if not (isinstance(n, ast.If) and npd(n.test) and n.orelse and isinstance(n.orelse[0], ast.If)):
                 continue
             par = getattr(n, "_parent", None)
-            if isinstance(par, ast.If) and n in par.body and "NANOSECONDS_PER_DAY" in unparse(par.test):
+            if isinstance(par, ast.If) and n in par.body and npd(par.test):
                 continue  # the nested second carry itself
 
             def depth(stmts: list[ast.stmt], key: str) -> int:
@@ -702,7 +707,7 @@ def r10_16_double_carry_is_symmetric(ctx: Ctx) -> RuleResult:
                         d = max(d, 1 + depth(s.body, key))
                 return d
 
-            fwd = 1 + depth(n.body, lambda t: "NANOSECONDS_PER_DAY" in unparse(t) and ">=" in unparse(t))
+            fwd = 1 + depth(n.body, lambda t: npd(t) and ">=" in unparse(t))
             back_if = n.orelse[0]
             back = 1 + depth(back_if.body, lambda t: "< 0" in unparse(t))
             rr.inst()
